@@ -2,7 +2,8 @@
 
   rb <mode> <ncalls> <xlen_1..xlen_n> <outcome tokens…> => { <returned> <nlog> <log entries…> <buffer> }* <consumed>
 
-  (token / entry / buffer encodings: see harness/randbytes.cpp).  `run` replays the script with the Lean model
+  (token / entry / buffer encodings: see harness/randbytes.cpp; every outcome may carry `8 e` = errno left by the answer and
+  `9 r` = result of the following `sleep` - the model `runCallsA` and the specification forget both).  `run` replays the script with the Lean model
   `Nfl.RB.runCalls` from descriptor state -1 and encodes its result the same way; `spec` evaluates the executable
   specification `Nfl.RB.checkCalls` on the *implementation's* call log and compares the implementation's buffer
   with the concatenation of the delivered chunks recomputed from the script.
@@ -16,28 +17,35 @@ open Nfl.RB
 /-- the byte the harness delivers as the `g`-th byte of a call sequence -/
 def rbByteAt (g : Nat) : Nat := (g * 167 + (g / 256) * 13 + (g / 65536) * 7 + 1) % 256
 
-partial def rbParseOutcomes : List Int → Option (List Outcome)
-  | [] => some []
-  | 0 :: t => (Outcome.openFail :: ·) <$> rbParseOutcomes t
-  | 1 :: fd :: t => if fd < 0 then none else (Outcome.openOk fd.toNat :: ·) <$> rbParseOutcomes t
-  | 2 :: t => (Outcome.readErr :: ·) <$> rbParseOutcomes t
-  | 3 :: t => (Outcome.readZero :: ·) <$> rbParseOutcomes t
+/-- outcome tokens, each optionally preceded by `8 e` (errno stored with the answer) and/or `9 r` (value returned by the first
+    `sleep` after it); `e`, `r` = prefixes seen for the outcome being parsed.  A dangling or repeated prefix is rejected. -/
+partial def rbParseAnswers (e r : Nat) : List Int → Option (List Answer)
+  | [] => if e = 0 && r = 0 then some [] else none
+  | 8 :: v :: t => if v ≤ 0 || e ≠ 0 then none else rbParseAnswers v.toNat r t
+  | 9 :: v :: t => if v ≤ 0 || r ≠ 0 then none else rbParseAnswers e v.toNat t
+  | 0 :: t => ({ out := .openFail, errno := e, sleepRet := r } :: ·) <$> rbParseAnswers 0 0 t
+  | 1 :: fd :: t =>
+    if fd < 0 then none else ({ out := .openOk fd.toNat, errno := e, sleepRet := r } :: ·) <$> rbParseAnswers 0 0 t
+  | 2 :: t => ({ out := .readErr, errno := e, sleepRet := r } :: ·) <$> rbParseAnswers 0 0 t
+  | 3 :: t => ({ out := .readZero, errno := e, sleepRet := r } :: ·) <$> rbParseAnswers 0 0 t
   | 4 :: n :: g0 :: t =>
     if n < 0 || g0 < 0 then none
-    else (Outcome.readBytes ((List.range' g0.toNat n.toNat).map rbByteAt) :: ·) <$> rbParseOutcomes t
+    else ({ out := .readBytes ((List.range' g0.toNat n.toNat).map rbByteAt), errno := e, sleepRet := r } :: ·) <$>
+      rbParseAnswers 0 0 t
   | 5 :: n :: t =>
     if n < 0 || t.length < n.toNat then none
     else
       let bs := t.take n.toNat
       if bs.all (fun b => 0 ≤ b && b < 256) then
-        (Outcome.readBytes (bs.map Int.toNat) :: ·) <$> rbParseOutcomes (t.drop n.toNat)
+        ({ out := .readBytes (bs.map Int.toNat), errno := e, sleepRet := r } :: ·) <$> rbParseAnswers 0 0 (t.drop n.toNat)
       else none
   | _ => none
 
 structure RbInput where
   mode : Nat
   xlens : List Nat
-  script : List Outcome
+  answers : List Answer          -- the environment as played: value, errno, sleep result
+  script : List Outcome          -- `forget answers`: what the specification (and the code) looks at
 
 def rbParseArgs (args : List Int) : Option RbInput :=
   match args with
@@ -47,8 +55,8 @@ def rbParseArgs (args : List Int) : Option RbInput :=
       let xs := rest.take ncalls.toNat
       if xs.any (· < 0) then none
       else do
-        let sc ← rbParseOutcomes (rest.drop ncalls.toNat)
-        pure { mode := mode.toNat, xlens := xs.map Int.toNat, script := sc }
+        let an ← rbParseAnswers 0 0 (rest.drop ncalls.toNat)
+        pure { mode := mode.toNat, xlens := xs.map Int.toNat, answers := an, script := forget an }
   | _ => none
 
 initialize rbCache : IO.Ref (Option (List Int × RbInput)) ← IO.mkRef none
@@ -206,7 +214,7 @@ def rbHandlers : List (String × Handler) := [
       match ← rbInput a with
       | none => pure none
       | some inp =>
-        let rs := runCalls none inp.script inp.xlens
+        let rs := runCallsA none inp.answers inp.xlens
         let enc := rbEncResults inp.mode rs inp.xlens inp.script []
         pure (some { model := enc ++ [rbConsumed inp.script rs], specOk := true, cls := rbCls inp rs }),
     spec := fun a impl => do
